@@ -712,7 +712,7 @@ json::Object FuncEmitter::run() {
         // labels of successor blocks, positionally
         json::Array labels;
         for (auto I = B->succ_begin(); I != B->succ_end(); ++I) {
-          const CFGBlock *SB = I->getPossiblyUnreachableBlock();
+          const CFGBlock *SB = I->getReachableBlock() ? I->getReachableBlock() : I->getPossiblyUnreachableBlock();
           json::Object LO;
           if (SB)
             if (const Stmt *L = SB->getLabel()) {
